@@ -297,7 +297,7 @@ def run_case(case: dict, parallel: int = 1) -> dict:
         first_step = hres[0]
         label = "rerun"
         if spec[0].get("faults"):
-            label = "after-" + ("crash" if "crash" in spec[0]["faults"][0]["kind"] else "fault")
+            label = "crash" if "crash" in spec[0]["faults"][0]["kind"] else "fault"
         if last["outcome"] != "completed":
             verdict["violations"].append({"class": f"second-run-{label}-not-completed", "history": hi,
                                           "detail": {"outcome": last["outcome"], "exception": last.get("exception"), "first_step_outcome": first_step["outcome"],
